@@ -68,4 +68,25 @@ where
     ) -> io::Result<()> {
         self.0.write_record(header, record).await
     }
+
+    /// Shuts down the output stream.
+    ///
+    /// This flushes buffered data and, for compressed formats, writes the end-of-file marker.
+    ///
+    /// # Examples
+    ///
+    /// ```
+    /// # #[tokio::main]
+    /// # async fn main() -> tokio::io::Result<()> {
+    /// use noodles_util::variant::r#async::io::writer::Builder;
+    /// use tokio::io;
+    ///
+    /// let mut writer = Builder::default().build_from_writer(io::sink());
+    /// writer.shutdown().await?;
+    /// # Ok(())
+    /// # }
+    /// ```
+    pub async fn shutdown(&mut self) -> io::Result<()> {
+        self.0.shutdown().await
+    }
 }
